@@ -120,7 +120,7 @@ def expected(op, abi, fields, vals):
         else:
             app.append("null" if v in ("null", "0") else "in:" + v)
     a = ",".join(app)
-    return f"ok app={a}" if op == "sret" else f"ok app={a} const={a}"
+    return f"ok app={a}" if op == "sret" else f"ok app={a} const={a} raw={a}"
 
 
 def run(chk):
